@@ -118,6 +118,16 @@ func fill(cfg vlib.Cfg, sp *caseSpec) {
 		}
 	case "api":
 		sp.Method = vlib.Pick(r, "GET", "POST")
+		if sp.Via == "" {
+			sp.Via = vlib.Pick(r, "direct", "direct", "server", "bridge")
+		}
+		if sp.Via == "bridge" {
+			if strings.HasPrefix(sp.Kind, "api-raw") {
+				sp.Via = "direct" // the bridge only reaches /api/v1 endpoints
+			} else {
+				sp.Method = "GET"
+			}
+		}
 		sp.DevMode = r.Chance(1, 3)
 		if sp.Kind == "api-handlerfunc" || strings.HasPrefix(sp.Kind, "api-raw") {
 			sp.Late = r.Chance(1, 4)
@@ -144,10 +154,17 @@ func genCases(cfg vlib.Cfg) []caseSpec {
 	for round := 0; round < rounds; round++ {
 		for _, k := range kinds {
 			vals := append(append([]string{}, coreValues...), extraValues...)
-			for _, v := range vals {
+			// sentinel values: all of them for the API handlers and the worker kinds
+			// (whose callers test errors with errors.Is), one per round elsewhere
+			if strings.HasPrefix(k, "api-") || strings.HasSuffix(k, "worker") || cfg.Thorough() {
+				vals = append(vals, sentinelValues...)
+			} else {
+				vals = append(vals, vlib.Pick(rr, sentinelValues...))
+			}
+			for vi, v := range vals {
 				add(caseSpec{Kind: k, Value: v, Build: "plain"})
 				// the race build repeats the matrix (fresh healthy mix): all of it in
-				// thorough, the core values of every kind in quick
+				// thorough, half of the core values of every kind in quick
 				if cfg.BinRace != "" && (cfg.Thorough() || round == 0) {
 					isCore := false
 					for _, c := range coreValues {
@@ -156,7 +173,8 @@ func genCases(cfg vlib.Cfg) []caseSpec {
 					if cfg.Thorough() && round%2 == 1 {
 						continue
 					}
-					if cfg.Thorough() || isCore {
+					// quick: every second core value per kind (alternating with the seed)
+					if cfg.Thorough() || (isCore && (vi+len(k)+int(cfg.Seed))%2 == 0) {
 						add(caseSpec{Kind: k, Value: v, Build: "race"})
 					}
 				}
@@ -204,7 +222,7 @@ func genCases(cfg vlib.Cfg) []caseSpec {
 }
 
 func caseSig(sp caseSpec) string {
-	return fmt.Sprintf("%s%s|%v%v%v|%s|%s|%d|%s/%s|b=%s|a=%s|sib=%d %v|%s %v %v", sp.RepCfg, sp.Mgmt, sp.AtStop, sp.Linger, sp.StartItems, sp.Kind, sp.Value, sp.Repeat, sp.SecondKind, sp.SecondValue,
+	return fmt.Sprintf("%s%s%s|%v%v%v|%s|%s|%d|%s/%s|b=%s|a=%s|sib=%d %v|%s %v %v", sp.Via, sp.RepCfg, sp.Mgmt, sp.AtStop, sp.Linger, sp.StartItems, sp.Kind, sp.Value, sp.Repeat, sp.SecondKind, sp.SecondValue,
 		strings.Join(sp.Before, ","), strings.Join(sp.After, ","), sp.Siblings, sp.Delays, sp.Method, sp.DevMode, sp.Late)
 }
 
@@ -329,6 +347,10 @@ func orchestrate() {
 		std := "stderr-off"
 		if sp.StdErr {
 			std = "stderr-on"
+		}
+		if sp.Via != "" {
+			rep.Seen("api_request_paths", sp.Via)
+			rep.Count("cases_api_via_"+sp.Via, 1)
 		}
 		rep.Seen("reporting_configs", std+"/channel-"+sp.RepCfg)
 		rep.Count("cases_"+std+"_channel-"+sp.RepCfg, 1)
